@@ -22,6 +22,8 @@
     pgen.findhms <info> <year> <century> <idx> <allow_jump> <tok;tok;…|E>      _find_hms_idx -> index|-
     pgen.parsehms <info> <year> <century> <idx> <hms_idx|-> <tok;tok;…|E>      _parse_hms    -> new_idx hms|-
     pgen.assigntz <n0|N> <n1|N> <tzname|N>             _assign_tzname on a fold-0 datetime -> fold
+    pgen.numtok <info> <year> <century> <fuzzy> <idx> <tok;tok;…> <classes of all tokens> <ymd v,v|century|d|m|y> <res.hour|->
+                                                       _parse_numeric_token -> idx ; ymd ; hour minute second microsecond
 -/
 import DateutilVerif.Ops.Parser
 import DateutilVerif.Generated.ParserOps
@@ -153,6 +155,17 @@ def handleFn (op : String) (args : List String) : Option String :=
   | "pgen.parsehms", [info, y, c, idx, hidx, toks] => withInfo info y c fun i => do
     let idx ← idx.toNat?; let h ← optNat? hidx; let l ← toks? toks
     some (showR (fun p : Nat × Option Nat => s!"{p.1} {showON p.2}") (Gen.P.parseHms i idx l h))
+  | "pgen.numtok", [info, y, c, fz, idx, toks, classes, ymd, hour] => withInfo info y c fun i => do
+    let idx ← idx.toNat?; let l ← toks? toks; let hour ← optNat? hour
+    let cls := clsOfTable (mkTable l.flatten (if classes == "-" then "" else classes))
+    let ymd ← match ymd.splitOn "|" with
+      | [vs, ce, d, m, yy] => do
+        let vs ← natList? vs; let d ← optNat? d; let m ← optNat? m; let yy ← optNat? yy
+        pure ({ vals := vs, century := ce == "1", dIdx := d, mIdx := m, yIdx := yy } : Ymd)
+      | _ => none
+    some (showR (fun r : Nat × Ymd × Res =>
+        s!"{r.1} ; {showYmd r.2.1} ; {showON r.2.2.hour} {showON r.2.2.minute} {showON r.2.2.second} {showON r.2.2.microsecond}")
+      (Gen.P.parseNumericToken cls i l idx ymd { hour := hour } (fz == "1")))
   | "pgen.assigntz", [n0, n1, name] => do
     let a ← optName? n0; let b ← optName? n1; let n ← optName? name
     some (showR (fun d : PPy.FoldDt => toString d.fold) (Gen.P.assignTzname dflt { n0 := a, n1 := b } n))
